@@ -261,3 +261,5 @@ Theorem all_sites_safe : forall s, In s sites -> site_ok s = true.
 Proof. apply forallb_forall. vm_compute. reflexivity. Qed.
 Theorem all_nondet_ok : forall n, In n nondet_sources -> nondet_ok n = true.
 Proof. apply forallb_forall. vm_compute. reflexivity. Qed.
+Theorem all_marshal_sites_ok : forall m, In m marshal_sites -> marshal_ok m = true.
+Proof. apply forallb_forall. vm_compute. reflexivity. Qed.
